@@ -26,6 +26,7 @@ CLAIMED = {
     'C07': ("6/C07", "Index clauses (0..N-1, per qubit, filters, tag partition, record position) on enumerated measurement programs with registries of own/parent circuits; time-order clause as a solver-decided conjunction over symbolic durations."),
     'C08': ("6/C08", "Exported program vs an independent translation of the program, record lookbacks of detectors/observables as unbounded symbolic integers (fakestim on symbolic paths, real stim in the twin), before/after unrolling clauses."),
     'C10': ("6/C10", "No-overlap as one disjunctive validity query per path over the four global durations (unbounded, > 0), as constructed and after unrolling."),
+    'C11': ("6/C11", "Flatten: same operation objects, no composite left, idempotence, readable (no relation cycle); library circuits: listing, schedule (term equality per object), acquisition indices and Stim program before/after."),
     'C12': ("6/C12", "Tiling, containment, disjointness, cover, translation and estimate clauses for unbounded symbolic round counts."),
     'C16': ("6/C16", "Class B (finite): tables of the real predicates are read on every run and z3 decides the equivalence with the statement's predicate for all subsets of <= 4 edges x idle qubits at once; the composition lemma and the generator are executed on the real code within the stated bounds."),
     'C17': ("6/C17", "Class B (finite): shipped tables are read into z3 lookup tables and each clause is a solver witness query over layer/gate/qubit indices; derived and composite descriptions are executed on bounded families of involved-qubit subsets."),
